@@ -18,6 +18,7 @@
 
 #include <cmath>
 #include <cstring>
+#include <memory>
 #include <sstream>
 
 using namespace sim;
@@ -107,6 +108,9 @@ struct C13 : Scenario {
         p["sheared"] = rng.chance(0.4); p["faulted"] = rng.chance(0.4); p["mapaxes"] = rng.chance(0.4);
         p["formatted"] = rng.chance(0.4); p["nnc"] = static_cast<long long>(rng.below(6));
         Json ts = Json::array(); static const int tl[] = {1, 2, 3, 4, 7, 16}; int nt = tier == "thorough" ? 6 : 3; for (int k = 0; k < nt; ++k) ts.push(tier == "thorough" ? tl[k] : tl[rng.below(6)]); p["teams"] = ts;
+        // query/update history on ONE live grid object (the bulk-volume cache and the ACTNUM-derived maps are state)
+        { Json h = Json::array(); static const char* hk[] = {"bulk", "cells", "reset_actnum", "bulk", "cells", "reset_all", "copy", "cells"}; int nh = static_cast<int>(rng.range(2, 7));
+          for (int k = 0; k < nh; ++k) { Json o = Json::object(); o["op"] = hk[rng.below(8)]; o["seed"] = static_cast<long long>(rng.below(1000000)); o["p"] = rng.real(0.05, 0.6); h.push(o); } p["history"] = h; }
         p["thread_seed"] = static_cast<long long>(rng.next() >> 8); p["yield_every"] = static_cast<long long>(rng.chance(0.3) ? rng.range(1, 8) : rng.range(16, 128));
         return p;
     }
@@ -118,6 +122,7 @@ struct C13 : Scenario {
         if (plan.getd("inactive") > 0) { Json p = plan; p["inactive"] = 0.0; out.push_back(p); }
         if (plan.geti("nnc") > 0) { Json p = plan; p["nnc"] = 0; out.push_back(p); }
         shrink_array(plan, "teams", out, 1);
+        if (plan.has("history")) shrink_array(plan, "history", out, 0);
         if (plan.gets("units") != "METRIC") { Json p = plan; p["units"] = "METRIC"; out.push_back(p); }
         return out;
     }
@@ -203,6 +208,37 @@ struct C13 : Scenario {
                     fail("C13.threads.volume", "activeVolume() under a team of " + std::to_string(T) + " threads (" + std::to_string(st.switches) + " context switches) differs from the per-cell volumes at active index " + std::to_string(bad));
                 }
                 tsim::configure(off);
+                // the same object after the bulk evaluation: per-cell queries are now served from the cache
+                for (size_t g = 0; g < ncell && r.violations.empty(); ++g) { if (!a.actnum[g]) continue; ++compared; const double v = gt.getCellVolume(g); const double want = uncached[gcp.activeIndex(g)];
+                    if (std::memcmp(&v, &want, sizeof v)) fail("C13.history.cell_after_bulk", "getCellVolume(" + std::to_string(g) + ") = " + num(v) + " after activeVolume() was evaluated on the object, " + num(want) + " before"); }
+            }
+            // ---------------- history of queries and ACTNUM updates on one live object
+            if (r.violations.empty() && plan.has("history")) {
+                Opm::EclipseGrid live(dcp); std::vector<int> act = a.actnum; std::string trail;
+                auto exact_of = [&](size_t g) { const auto ijk = gcp.getIJK(g); return a.dxv[static_cast<size_t>(ijk[0])] * a.dyv[static_cast<size_t>(ijk[1])] * a.dzv[static_cast<size_t>(ijk[2])] * lf * lf * lf; };
+                auto check_live = [&](const Opm::EclipseGrid& G, bool bulk) {
+                    size_t na = 0;
+                    for (size_t g = 0; g < ncell && r.violations.empty(); ++g) {
+                        ++compared;
+                        if (G.cellActive(g) != (act[g] != 0)) { fail("C13.history.active_flag", "after [" + trail + "]: cellActive(" + std::to_string(g) + ") disagrees with the ACTNUM in force"); break; }
+                        if (act[g]) { if (G.activeIndex(g) != na || G.getGlobalIndex(na) != g) { fail("C13.history.index", "after [" + trail + "]: active index maps are not inverse at global index " + std::to_string(g)); break; } ++na; }
+                        const double v = G.getCellVolume(g), ex = exact_of(g);
+                        if (!(std::fabs(v - ex) <= 1e-11 * ex)) { fail("C13.history.cell_volume", "after [" + trail + "]: getCellVolume(" + std::to_string(g) + ") = " + num(v) + ", exact " + num(ex)); break; }
+                    }
+                    if (r.violations.empty() && G.getNumActive() != na) fail("C13.history.num_active", "after [" + trail + "]: getNumActive() = " + std::to_string(G.getNumActive()) + ", ACTNUM in force has " + std::to_string(na));
+                    if (r.violations.empty() && bulk) { const auto& av = G.activeVolume(); if (av.size() != na) fail("C13.history.bulk_size", "after [" + trail + "]: activeVolume() has " + std::to_string(av.size()) + " entries for " + std::to_string(na) + " active cells");
+                        else for (size_t k = 0; k < na; ++k) { const double ex = exact_of(G.getGlobalIndex(k)); if (!(std::fabs(av[k] - ex) <= 1e-11 * ex)) { fail("C13.history.bulk_volume", "after [" + trail + "]: activeVolume()[" + std::to_string(k) + "] = " + num(av[k]) + ", exact " + num(ex)); break; } } }
+                };
+                std::unique_ptr<Opm::EclipseGrid> cp;
+                Opm::EclipseGrid* cur = &live;
+                for (size_t q = 0; q < plan.at("history").size() && r.violations.empty(); ++q) {
+                    const Json& o = plan.at("history")[q]; const std::string op = o.gets("op"); trail += (trail.empty() ? "" : ", ") + op; ++r.counters["history." + op];
+                    if (op == "bulk") check_live(*cur, true);
+                    else if (op == "cells") check_live(*cur, false);
+                    else if (op == "reset_actnum") { Rng hg(static_cast<std::uint64_t>(o.geti("seed"))); bool any = false; for (auto& v : act) { v = hg.chance(o.getd("p")) ? 0 : 1; any = any || v; } if (!any) act[ncell - 1] = 1; cur->resetACTNUM(act); check_live(*cur, false); }
+                    else if (op == "reset_all") { cur->resetACTNUM(); act.assign(ncell, 1); check_live(*cur, false); }
+                    else if (op == "copy") { cp = std::make_unique<Opm::EclipseGrid>(*cur); cur = cp.get(); if (cur == &live) {} check_live(*cur, false); }
+                }
             }
             // ---------------- EGRID through the file seam
             if (r.violations.empty()) {
